@@ -130,7 +130,9 @@ def run_tlc(ctx, module, cfg_text, metadir, workers=4, env_extra=None, timeout=1
     with open(cfg_path, 'w') as f:
         f.write(cfg_text)
     env = dict(os.environ)
-    env['JAVA_TOOL_OPTIONS'] = '-Xss1g -Xmx%s' % heap
+    jtmp = os.path.join(metadir, 'jtmp')
+    os.makedirs(jtmp, exist_ok=True)
+    env['JAVA_TOOL_OPTIONS'] = '-Xss1g -Xmx%s -Djava.io.tmpdir=%s' % (heap, jtmp)   # TLC leaves a tlc-* directory per run in the JVM tmpdir
     if env_extra:
         env.update(env_extra)
     cmd = ['timeout', str(timeout), 'tlc', '-workers', str(workers), '-metadir', os.path.join(metadir, 'states'),
@@ -142,6 +144,7 @@ def run_tlc(ctx, module, cfg_text, metadir, workers=4, env_extra=None, timeout=1
     p = subprocess.run(cmd, cwd=ctx.spec, env=env, stdout=subprocess.PIPE, stderr=subprocess.STDOUT, text=True)
     out = p.stdout
     shutil.rmtree(os.path.join(metadir, 'states'), ignore_errors=True)
+    shutil.rmtree(jtmp, ignore_errors=True)
     return p.returncode, out, time.time() - t0
 
 
@@ -192,7 +195,8 @@ def run_trace_shards(ctx, module, shard_files, metabase, env_extra=None, paralle
         with open(cfg_path, 'w') as f:
             f.write(cfg_text)
         env = dict(os.environ)
-        env['JAVA_TOOL_OPTIONS'] = '-Xss1g -Xmx3g'
+        os.makedirs(os.path.join(md, 'jtmp'), exist_ok=True)
+        env['JAVA_TOOL_OPTIONS'] = '-Xss1g -Xmx3g -Djava.io.tmpdir=%s' % os.path.join(md, 'jtmp')
         env['TRACE'] = path
         if env_extra:
             env.update(env_extra)
